@@ -89,6 +89,7 @@ pub(crate) fn path_prefix_search(trie: &Trie<u8>, path: &str) -> ⟦(out: ⟧Vec
 pub mod file {
     use vstd::prelude::*;
     use super::*;
+//!assumed src/core/file.rs contains_file sha=baf1f50655bcc89a
     // ASSUMED (repo function core/file.rs, not verified): the path is a file or a directory containing one
     #[verifier::external_body] pub fn contains_file(p: &path::Path) -> (r: Result<(), MonorailError>) { unimplemented!() }
 }
